@@ -28,7 +28,7 @@ WIRE["Echo"] = ("echo", {"pe": ("path", 2), "qe": ("query", "qe"), "qo": ("query
                          "ph": ("header", "x-ph"), "pho": ("header", "x-pho")})
 WIRE["Ids"] = ("idsPath", {"ids": ("path", 2)})
 WIRE["Regex"] = ("regexPath", {"n": ("path", 2)})
-WIRE["Attrs"] = ("attrs", {"b": ("path", 2), "bee": ("path", 3), "sea": ("path", 4), "pq": ("query", "q1"), "hh": ("header", "x-h1")})
+WIRE["Attrs"] = ("attrs", {"b": ("path", 2), "bee": ("path", 3), "sea": ("path", 4), "pq": ("query", "q1"), "hh": ("header", "x-h1"), "ls": ("query", "ls")})
 
 
 def base_args(ep, salt):
@@ -63,6 +63,7 @@ def base_args(ep, salt):
     if ep == "Attrs":
         d = {n: "ok:" + mk(n) for n in ("b", "bee", "pq", "hh")}
         d["sea"] = 660000 + salt % 1000
+        d["ls"] = [[mk("ls"), "", "x"], [""], [], [mk("ls")]][salt % 4]
         return d
     if ep == "OptBody":
         return {"body": {"a": 810000 + salt % 1000}}
@@ -76,7 +77,11 @@ def marker_of(ep, name, args):
     if isinstance(v, dict):
         v = list(v.values())[0]
     if isinstance(v, list):
+        if not v:
+            return None
         v = v[0]
+    if v == "":
+        return None
     if isinstance(v, bool) or v in ("RED", "BLUE"):
         return None
     if isinstance(v, float):
@@ -128,7 +133,9 @@ def mutations(ep, adesc, outcome, args, salt):
             return [{"op": "set_header", "name": hname, "value": [tok, ("Bearer" if kind == "auth" else "sid") + tok, tok + tok][salt % 3]}], None
         if outcome == "badprefix":
             return [{"op": "set_header", "name": hname, "value": ("Basic " if kind == "auth" else "other=") + tok}], None
-        return [{"op": "set_header", "name": hname, "value": ("Bearer " if kind == "auth" else "sid=") + tok + " b@d"}], None
+        # not a token: a blank and foreign characters, data after the padding, padding first
+        bad_tok = [tok + " b@d", tok + "=." + tok, "=" + tok, tok + "==x" + tok][salt % 4]
+        return [{"op": "set_header", "name": hname, "value": ("Bearer " if kind == "auth" else "sid=") + bad_tok}], None
     if kind == "body":
         if outcome == "malformed":
             return [{"op": "set_body", "bytes": list(('{"a": "%s' % bad).encode())}], bad
